@@ -406,9 +406,13 @@ def alternating_ids(rnd, cfg):
     a, b = [u[0] for u in rnd.sample(UNITS2, 2)]
     tags = {"arch:alternating_ids", "units:2"}
     # the two ids; "no id" is an id of its own, different from id 0
-    i1, i2 = rnd.choice([("1", "2"), ("1", "2"), ("", "0"), ("0", "3"), ("", "7"), ("0", "")])
+    i1, i2 = rnd.choice([("1", "2"), ("1", "2"), ("", "0"), ("0", "3"), ("", "7"), ("0", ""),
+                         # ids of several digits that share digits with the other id: an id is a number, not a character
+                         ("1", "12"), ("10", "1"), ("21", "2"), ("3", "30"), ("12", "21")])
     if i1 == "" or i2 == "":
         tags.add("ids:none_vs_number")
+    if len(i1) > 1 or len(i2) > 1:
+        tags.add("ids:multi_digit")
     A = a.format(f"[<{i1}]", f"[>{i2}]")
     B = b.format(f"[<{i2}]", f"[>{i1}]")
     e = rnd.choice(ENDS)[0]
